@@ -33,7 +33,7 @@ ENGINES['e2'] = {
     'dir': os.path.join(VERIF, 'kani', 'e2'),
     'crate': 'verif-e2',
     'bin': 'verif-e2',
-    'unwind': 48,
+    'unwind': 26,
     'harness_prefix': 'harnesses_gen::',
     'prepare': _prepare_e2,
     # generated sources are part of the hash: they are a function of /repo's typify-impl
@@ -324,8 +324,8 @@ E2_BOUNDS = {
     'schemas': 'the corpus of lib/corpus.py: string enums (incl. members whose identifier differs from the raw value), constrained strings (6 min/max combinations), string alias, string/integer deny lists, integer enums, flat structs (required/optional/defaulted/nullable/renamed members, open and closed), integer formats and bounds as members, nested structs, tuples, arrays, nullable objects',
     'instances': 'per harness: concrete presence mask / array length / string width pattern; symbolic: every integer (i64 ∪ u64), boolean, null-vs-value choice of scalar nullables, every code point of every string',
     'strings': 'free strings of <= 3 Unicode scalar values per leaf (quick: selected width patterns; thorough: all 85 for enums, all patterns up to maxLength+1 for constrained strings)',
-    'documents': '<= 40 tokens, <= 64 string bytes',
-    'unwind': 48,
+    'documents': '<= 24 tokens, <= 64 string bytes, strings <= 12 bytes',
+    'unwind': 26,
 }
 E2_OUTSIDE = ['every schema not in the corpus', 'maps/sets (HashMap/HashSet do not return under CBMC), flattened members, untagged/internally/adjacently tagged enums, $ref recursion',
               'pattern, string formats (uuid, date-time, ip: third-party parsers)', 'JSON text level (number lexing, escapes): serde_json is not executed symbolically',
